@@ -164,12 +164,13 @@ def regen_flags(rnd, kinds):
         return args, [('NoKind', True)]
     ks = rnd.sample(kinds, rnd.randint(1, 3))
     style = rnd.choice(['separate', 'comma', 'mixed'])
+    names = [rs.kname(k) for k in ks]          # what the kinds are called on the command line
     if style == 'separate' or len(ks) == 1:
-        toks = list(ks)
+        toks = list(names)
     elif style == 'comma':
-        toks = [','.join(ks)]
+        toks = [','.join(names)]
     else:
-        toks = [','.join(ks[:2])] + ks[2:]
+        toks = [','.join(names[:2])] + names[2:]
     args = ['--write'] + toks
     if rnd.random() < 0.3:
         args = ['--wquiet'] + args
@@ -180,7 +181,7 @@ def regen_session(rnd, wd, tid0):
     """Up to three consecutive pytest processes on one project (flags, then usually none, ...).
     Returns events (each process = one session with its own tid) and details."""
     ptypes = {'p0': 'string', 'p1': 'textfile', 'p2': 'textfiles', 'p3': 'textfiles', 'p4': 'binary', 'p5': 'dataframe',
-              'p6': 'ondisk', 'p7': 'csvframe', 'p8': 'csv2pq'}
+              'p6': 'ondisk', 'p7': 'csvframe', 'p8': 'csv2pq', 'p9': 'csvlegacy'}
     cnames = ['c%d' % i for i in range(20)]
     kinds = ['k0', 'k1', 'k2', 'k3']
     variant = rnd.randint(0, 3)
@@ -194,7 +195,7 @@ def regen_session(rnd, wd, tid0):
     nsteps = rnd.randint(3, 8)
     steps = []
     for _ in range(nsteps):
-        ty = rnd.choice(['string', 'textfile', 'textfiles', 'binary', 'dataframe', 'ondisk', 'csvframe', 'csv2pq'])
+        ty = rnd.choice(['string', 'textfile', 'textfiles', 'binary', 'dataframe', 'ondisk', 'csvframe', 'csv2pq', 'csvlegacy'])
         paths = [p for p, t in ptypes.items() if t == ty]
         if ty == 'textfiles' and rnd.random() < 0.5:
             paths = paths[::-1]
